@@ -1,0 +1,91 @@
+//go:build verif
+
+package orefafs
+
+import "fmt"
+
+// VerifCheck compares the path index of the file system with the tree made of the children maps
+// (without taking locks: it must be called on a quiescent file system) and returns "ok" or a description
+// of the first broken structural invariant: the index holds exactly the paths reachable through the
+// children maps and maps each to the same node, every directory is reachable by exactly one path, and
+// the stored link counter of every file equals the number of directory entries referring to it.
+func (vfs *OrefaFS) VerifCheck() string {
+	sep := string(vfs.PathSeparator())
+	reach := make(map[string]*node)
+	refs := make(map[*node]int)
+	seen := make(map[*node]string)
+
+	var walk func(nd *node, path string, depth int) string
+
+	walk = func(nd *node, path string, depth int) string {
+		if depth > 64 {
+			return "cycle or excessive depth at " + path
+		}
+
+		reach[path] = nd
+
+		if !nd.mode.IsDir() {
+			if len(nd.children) != 0 {
+				return "file with children at " + path
+			}
+
+			return "ok"
+		}
+
+		if first, ok := seen[nd]; ok {
+			return fmt.Sprintf("directory reachable twice: %q and %q", first, path)
+		}
+
+		seen[nd] = path
+
+		for name, child := range nd.children {
+			if child == nil {
+				return "nil child " + path + sep + name
+			}
+
+			refs[child]++
+
+			if msg := walk(child, path+sep+name, depth+1); msg != "ok" {
+				return msg
+			}
+		}
+
+		return "ok"
+	}
+
+	for path, nd := range vfs.nodes {
+		isRoot := path == "" || (len(path) == 2 && path[1] == ':')
+		if !isRoot {
+			continue
+		}
+
+		if msg := walk(nd, path, 0); msg != "ok" {
+			return msg
+		}
+	}
+
+	for path, nd := range reach {
+		ind, ok := vfs.nodes[path]
+		if !ok {
+			return "reachable path missing from the index: " + path
+		}
+
+		if ind != nd {
+			return "index and tree disagree on the node at " + path
+		}
+	}
+
+	for path := range vfs.nodes {
+		if _, ok := reach[path]; !ok {
+			return "orphan index entry: " + path
+		}
+	}
+
+	for nd, n := range refs {
+		if !nd.mode.IsDir() && nd.nlink != n {
+			return fmt.Sprintf("file id %d: stored link count %d, %d entries refer to it", nd.id, nd.nlink, n)
+		}
+	}
+
+	return "ok"
+}
